@@ -73,10 +73,11 @@ func baseProfile() Profile {
 }
 
 type Gen struct {
-	t *rapid.T
-	x *Exec
-	p Profile
-	n int
+	t    *rapid.T
+	x    *Exec
+	p    Profile
+	n    int
+	last *Op // last undelegate/redelegate drawn
 }
 
 func (g *Gen) label(s string) string { g.n++; return fmt.Sprintf("%s#%d", s, g.n) }
@@ -318,6 +319,40 @@ func (g *Gen) frac() string {
 	return g.pickS("frac", g.p.Fracs)
 }
 
+// slashTarget draws the validator to slash, biased to validators that have pending
+// unbondings / redelegations out of them or alliance stake (where slashing has effects).
+func (g *Gen) slashTarget(s *Snap) int {
+	nv := len(g.x.W.Vals)
+	if g.pct("slash-targeted", 70) {
+		seen := map[int]bool{}
+		var cands []int
+		add := func(v int) {
+			if v >= 0 && !seen[v] {
+				seen[v] = true
+				cands = append(cands, v)
+			}
+		}
+		for _, b := range s.Unb {
+			for _, e := range b.Entries {
+				add(e.V)
+			}
+		}
+		for _, r := range s.Redels {
+			add(r.S)
+		}
+		if len(cands) == 0 || g.pct("slash-staked", 30) {
+			for _, d := range s.Dels {
+				add(d.V)
+			}
+		}
+		if len(cands) > 0 {
+			sort.Ints(cands)
+			return cands[g.intn("slash-cand", len(cands))]
+		}
+	}
+	return g.intn("v", nv)
+}
+
 // Step draws and applies one op. Returns false if no op could be produced.
 func (g *Gen) Step() {
 	x := g.x
@@ -358,7 +393,18 @@ func (g *Gen) Step() {
 			op = Op{K: kind, D: g.intn("d", NumDels), V: g.intn("v", nv), W: g.intn("w", nv), Denom: g.anyDenom("denom"), Amt: g.freshAmount("amt")}
 		} else {
 			cands := s.Dels
-			if g.p.FocusDelPct > 0 && g.pct("focus-pos", g.p.FocusDelPct) {
+			if g.last != nil && g.pct("repeat-target", 25) {
+				// act again on the position touched last (packs several entries into one bucket)
+				var same []DelSnap
+				for _, d := range s.Dels {
+					if d.D == g.last.D && d.Denom == g.last.Denom && (d.V == g.last.V || d.V == g.last.W) {
+						same = append(same, d)
+					}
+				}
+				if len(same) > 0 {
+					cands = same
+				}
+			} else if g.p.FocusDelPct > 0 && g.pct("focus-pos", g.p.FocusDelPct) {
 				var mine []DelSnap
 				for _, d := range s.Dels {
 					if d.D == 0 {
@@ -388,6 +434,10 @@ func (g *Gen) Step() {
 		if kind != KRedelegate {
 			op.W = 0
 		}
+		if kind != KClaim {
+			cp := op
+			g.last = &cp
+		}
 		x.Apply(op)
 	case KClaimAll:
 		x.Apply(Op{K: KClaimAll})
@@ -400,12 +450,12 @@ func (g *Gen) Step() {
 		if g.p.SettleBeforeValueChange {
 			x.Apply(Op{K: KClaimAll})
 		}
-		x.Apply(Op{K: KSlashHook, V: g.intn("v", nv), Frac: g.frac()})
+		x.Apply(Op{K: KSlashHook, V: g.slashTarget(s), Frac: g.frac()})
 	case KSlash:
 		if g.p.SettleBeforeValueChange {
 			x.Apply(Op{K: KClaimAll})
 		}
-		v := g.intn("v", nv)
+		v := g.slashTarget(s)
 		power := s.Vals[v].Tokens.BigInt()
 		power = new(big.Int).Quo(power, big.NewInt(1_000_000))
 		p := power.Int64()
